@@ -430,6 +430,7 @@ const char *sym_name(const void *addr)
         const char *best = "?";
         for (int i = 0; i < nsyms; i++) {
                 if (syms[i].a != (uintptr_t) addr) continue;
+                if (syms[i].t != 'T' && syms[i].t != 't' && syms[i].t != 'W' && syms[i].t != 'w') continue;
                 if (strstr(syms[i].n, "_slver") || strstr(syms[i].n, "_mbinit")) continue;
                 /* prefer global names, and the longest alias */
                 if (best[0] == '?' || (syms[i].t == 'T' && strlen(syms[i].n) > strlen(best))) best = syms[i].n;
@@ -441,4 +442,12 @@ void *sym_addr(const char *name)
         syms_load();
         for (int i = 0; i < nsyms; i++) if (!strcmp(syms[i].n, name)) return (void *) syms[i].a;
         return NULL;
+}
+
+uintptr_t sym_next_global(uintptr_t a)
+{
+        syms_load();
+        uintptr_t best = 0;
+        for (int i = 0; i < nsyms; i++) if (syms[i].a > a && syms[i].t == 'T' && (!best || syms[i].a < best)) best = syms[i].a;
+        return best;
 }
